@@ -315,6 +315,10 @@ convert(struct func *f, struct type *dst, struct type *src, struct value *l)
 	} else {
 		class = dst->size == 8 ? 'd' : 's';
 		if (src->prop & PROPINT) {
+			if (src->size < 4) {
+				l = convert(f, &typeint, src, l);
+				src = &typeint;
+			}
 			if (src->u.basic.issigned)
 				op = src->size == 8 ? ISLTOF : ISWTOF;
 			else
